@@ -425,11 +425,13 @@ def sys_twin_prop(ctx, mu_i, a):
     r = twin_guard(attempt(lambda: _sys_prop(_TWSYS[mu_i], a)), "System.propagate%s" % (tuple(a),))
     if _is_container(r):
         for o, k in _TWOBJ:
-            if o is r:
-                hist = [["init", {"mu_i": mu_i, "kind": "adaptive"}], ["propagate", list(k[3:])], ["propagate", list(a)]]
+            if o is r:      # the twin itself served another request's cache entry: report it, answer with a brand-new System
+                hist = [["init", {"mu_i": mu_i, "kind": "fixed"}], ["propagate_raw", list(k[3:])], ["propagate_raw", list(a)]]
                 ctx.fail("system:propagate:alias:propagate", {"kind": "system", "history": hist},
                          "two different propagation requests returned the same cached object: %s and %s" % (k[3:], tuple(a)))
-                raise HarnessError("System twin unusable: cache key collision between %s and %s" % (k[3:], tuple(a)))
+                _TWSYS[mu_i] = hl().System.from_mu(MU[mu_i])
+                r = twin_guard(attempt(lambda: _sys_prop(_TWSYS[mu_i], a)), "System.propagate%s" % (tuple(a),))
+                break
         _TWOBJ.append((r, key))
     _MEMO[key] = r if isinstance(r, Raised) else _Canon(canon(r))
     return _MEMO[key]
@@ -469,6 +471,9 @@ class SystemHarness(Harness):
 
     def op_propagate(self, si, ti, ni, mi, fwd):
         meth, order = METHODS[self.mkind][mi]
+        self.op_propagate_raw(si, ti, ni, meth, order, fwd)
+
+    def op_propagate_raw(self, si, ti, ni, meth, order, fwd):
         a = [si, ti, ni, meth, order, fwd]
         ctxt = self._context(a)
         want = sys_twin_prop(self.ctx, self.mu_i, a)
@@ -1247,22 +1252,23 @@ def alphabet(name, tier, fam=None):
                  ["roundtrip", ["pickle", True]], ["roundtrip", ["inplace", True]]] + ([] if q else [["read", ["is_stable"]], ["read", ["energy"]]]), 3)
     if name == "cm":
         # low degrees keep one sequence (fresh System + point + manifold, twin answers memoised) at ~0.05 s
-        return ("cm", [{"mu_i": 0, "idx": 1, "deg": 4}],
-                [["set_degree", [3]], ["q", ["compute", None]], ["q", ["hamiltonian", 3]], ["q", ["degree", None]], ["q", ["to_synodic", 0]],
+        return ("cm", [{"mu_i": 0, "idx": 1, "deg": 3}],
+                [["set_degree", [4]], ["q", ["compute", None]], ["q", ["hamiltonian", 4]], ["q", ["degree", None]], ["q", ["to_synodic", 0]],
                  ["roundtrip", ["pickle"]]] + ([] if q else [["set_degree", [5]]]), 3 if q else 4)
     if name == "system":
-        letters = [["propagate", [0, 0, 0, 0, 1]], ["propagate", [0, 0, 0, 1, 1]], ["propagate", [0, 0, 1, 0, 1]]]
+        letters = [["propagate", [0, 0, 0, 0, 1]], ["propagate", [0, 0, 0, 1, 1]], ["propagate", [0, 0, 0, 0, -1]]]     # base, other order, backward
         if not q:
-            letters += [["propagate", [0, 1, 0, 0, 1]], ["roundtrip", ["pickle", True]]]
+            letters += [["propagate", [0, 0, 1, 0, 1]], ["propagate", [0, 1, 0, 0, 1]], ["roundtrip", ["pickle", True]]]
         return ("system", [{"mu_i": 0, "kind": "fixed"}], letters, 2 if q else 3)
     if name == "orbit-guess":
         return ("orbit", [{"family": fam, "mu_i": 0, "idx": 1, "x": None, "T": None, "last_prop": None}],
                 [["correct", [0]], ["correct", [1]], ["set_period", [1]], ["read", ["period"]], ["read", ["monodromy"]], ["propagate", [0]],
-                 ["trajectory", []]] + ([] if q else [["roundtrip", ["pickle", False]]]), 3)
+                 ["trajectory", []], ["roundtrip", ["pickle", False]]], 3)
     if name == "orbit-corrected":
         x, T = corrected_state(fam)
         return ("orbit", [{"family": fam, "mu_i": 0, "idx": 1, "x": x, "T": T, "last_prop": None}],
-                [["propagate", [0]], ["propagate", [1]], ["trajectory", []], ["read", ["monodromy"]]] + ([] if q else [["set_period", [1]], ["correct", [0]]]), 4)
+                [["propagate", [0]], ["propagate", [1]], ["propagate", [2]], ["trajectory", []], ["read", ["monodromy"]]]
+                + ([] if q else [["set_period", [1]], ["correct", [0]]]), 4)
     raise HarnessError(name)
 
 
